@@ -82,6 +82,7 @@ BS_MODEL(Di, uint32_t) ZS_MODEL(Di, uint32_t)
 uint64_t vp_nat_sink_c8(const void *, uint64_t, int, uint64_t, const void *, void *, uint64_t); uint64_t vp_nat_sink_wc(const void *, uint64_t, int, uint64_t, const void *, void *, uint64_t);
 uint64_t vp_nat_sink_c16(const void *, uint64_t, int, uint64_t, const void *, void *, uint64_t); uint64_t vp_nat_sink_c32(const void *, uint64_t, int, uint64_t, const void *, void *, uint64_t);
 uint64_t vp_nat_sink_stdio(const void *, uint64_t, int, uint64_t, void *, uint64_t);
+uint64_t vp_nat_entry_stdio(const void *, const void *, void *, uint64_t); uint64_t vp_nat_entry_c8(const void *, const void *, void *, uint64_t); uint64_t vp_nat_entry_c16(const void *, const void *, void *, uint64_t);
 void vp_nat_extract_c8(const void *, uint64_t, void *); void vp_nat_extract_wc(const void *, uint64_t, void *); void vp_nat_extract_c16(const void *, uint64_t, void *); void vp_nat_extract_c32(const void *, uint64_t, void *);
 #endif
 REF_DECODE_U8(N + 1)
@@ -155,6 +156,50 @@ static int extraction_main(void) {
 
 #if OP == 3
 int vp_harness_main(void) { return extraction_main(); }
+#elif OP == 4
+/* the entry points themselves with one argument: ST::printf(FILE*), ST::writef(ostream<char>), ST::writef(ostream<char16_t>), ST::format, ST::format_latin_1
+ * on the format "x{}y" and an arbitrary ASCII C string of N bytes: every sink receives x, the argument, y (for the Latin-1 string sink: the same bytes). */
+int vp_harness_main(void) {
+  static const uint8_t fmt[] = "x{}y";
+  uint8_t sh[N + 1]; uint8_t *a = (uint8_t *)vp_exact(N + 1);
+  for (int i = 0; i < N; i++) { sh[i] = vp_in_u8(); ASSUME(sh[i] != 0 && sh[i] < 0x80); a[i] = sh[i]; } a[N] = 0;
+  unit_t exp[LOGN + 1]; uint64_t el = 0; exp[el++] = 'x'; for (int i = 0; i < N; i++) exp[el++] = sh[i]; exp[el++] = 'y';
+#ifdef __CPROVER__
+#if SINK == 1
+  vp_printf_1(STREAM, (uint8_t *)fmt, a);
+#elif SINK == 2
+  vp_writef_1_c8(STREAM, (uint8_t *)fmt, a);
+#elif SINK == 4
+  vp_writef_1_c16(STREAM, (uint8_t *)fmt, a);
+#endif
+#else
+#if SINK == 1
+  ln = vp_nat_entry_stdio(fmt, a, lg, LOGN);
+#elif SINK == 2
+  ln = vp_nat_entry_c8(fmt, a, lg, LOGN);
+#elif SINK == 4
+  ln = vp_nat_entry_c16(fmt, a, lg, LOGN);
+#endif
+#endif
+#if SINK == 6 || SINK == 7
+  { str_t out;
+#if SINK == 6
+    vp_format_1(&out, (uint8_t *)fmt, a);
+#else
+    vp_format_latin_1_1(&out, (uint8_t *)fmt, a);
+#endif
+    ASSERT(!vp_exc_pending, "formatting ASCII text does not throw");
+    ln = out.f0.f1; for (uint64_t i = 0; i < LOGN; i++) if (i < ln) lg[i] = out.f0.f0[i];
+    vp_str_dtor(&out); }
+#endif
+  ASSERT(!vp_exc_pending, "the entry point does not throw on a well-formed format and ASCII argument");
+  ASSERT(ln == el, "the sink received exactly: literal, argument, literal");
+  for (uint64_t i = 0; i < LOGN; i++) if (i < el && i < ln) ASSERT(lg[i] == exp[i], "the sink received exactly the expected units, in order");
+  for (int i = 0; i < N; i++) ASSERT(a[i] == sh[i], "argument text unchanged");
+  ASSERT(vp_live_blocks == 0, "no leak");
+  REACH("end of harness");
+  return 0;
+}
 #else
 int vp_harness_main(void) {
   uint8_t sh[N + 1]; uint8_t *d = (uint8_t *)vp_exact(N);
